@@ -116,3 +116,28 @@ Theorem C10_T7_drain_progress n sched :
   (forall e, In e (g_pushed s) -> ~ In e (g_dropped s) -> In e (g_decoded s')).
 Proof. exact (QueueProgress.drain_progress n sched). Qed.
 Print Assumptions C10_T7_drain_progress.
+
+(* T8: the producer's side on the current source. packetGet() and packetPut() of lidar_driver_impl.hpp are regenerated on every run as
+   statement trees and interpreted over this model's state (Proofs/QueueCode.v): packetGet() takes the oldest buffer of the free pool or
+   allocates a new one - the model's PIdle step -; packetPut(pkt, true) pushes, and exactly when the size the push saw is above 1024 it
+   reports and then clears the whole backlog - the model's PFilled .. PIdle steps taken one after the other, same queues, same ghost
+   history, same counts of reports and clears *)
+From RS Require Import Gen.Kernels_gen Proofs.Handover Proofs.QueueCode.
+Theorem C10_T8_packetGet_code_is_model s i : nth_error (q_prods s) i = Some PIdle ->
+  exists m r, qrun LidarDriverImpl_packetGet_effects (mk_pm s i None 0) = Ret m r /\ finish_get m r = Some (prod_step s i 0%Z).
+Proof. exact (packetGet_code_is_model s i). Qed.
+Print Assumptions C10_T8_packetGet_code_is_model.
+Theorem C10_T8_packetPut_code_is_model s i b y : nth_error (q_prods s) i = Some (PFilled b y) ->
+  exists m, qrun LidarDriverImpl_packetPut_effects (mk_pm s i None 0) = Go m /\
+            ((POOL_MAX <? length (q_stuffed s ++ [b])) = true  -> p_s m = advn 4 s i /\ nth_error (q_prods (p_s m)) i = Some PIdle) /\
+            ((POOL_MAX <? length (q_stuffed s ++ [b])) = false -> p_s m = advn 2 s i /\ nth_error (q_prods (p_s m)) i = Some (PCheck (length (q_stuffed s ++ [b]))) /\
+                                                                   advn 3 s i = with_prod (p_s m) i PIdle).
+Proof. exact (packetPut_code_is_model s i b y). Qed.
+Print Assumptions C10_T8_packetPut_code_is_model.
+(* non-vacuity: one producer that has filled buffer 0 while the queue is empty: the push is seen with size 1, nothing is cleared *)
+Example C10_T8_example :
+  let s := step (step (init 1) (AProd 0 7%Z)) (AProd 0 7%Z) in
+  nth_error (q_prods s) 0 = Some (PFilled 0 7%Z) /\
+  match qrun LidarDriverImpl_packetPut_effects (mk_pm s 0 None 0) with Go m => q_stuffed (p_s m) = [0] /\ g_clears (p_s m) = 0 /\ p_sz m = 1 | _ => False end.
+Proof. vm_compute. repeat split; reflexivity. Qed.
+
